@@ -28,6 +28,9 @@ pub struct Case {
     pub data: Data,
     pub opts: Opts,
     pub preset: Option<Data>,
+    /// Some(seed): dictionary and input are related (gen::weave_preset)
+    #[serde(default)]
+    pub weave: Option<u64>,
     pub kind: Kind,
     /// the executions: one write plan each
     pub plans: Vec<Plan>,
@@ -218,7 +221,7 @@ impl Property for C13 {
                 ),
             }
         };
-        let preset = prop_oneof![5 => Just(None), 1 => data_strategy(2, 3000).prop_map(Some)];
+        let preset = prop_oneof![2 => Just(None), 1 => data_strategy(2, 3000).prop_map(Some)];
         let data = if !shuttle && family >= 8 {
             long_pass_strategy(tier.pick(12_000, 40_000))
         } else {
@@ -243,10 +246,12 @@ impl Property for C13 {
                     Kind::Lzma { framing: Framing::RawEos | Framing::RawSized } | Kind::Lzma2 => preset,
                     _ => None,
                 };
+                let weave = if preset.is_some() && data.total_len() % 3 != 0 { Some(data.total_len() as u64 ^ 0x5EED) } else { None };
                 Case {
                     data,
                     opts,
                     preset,
+                    weave,
                     kind,
                     plans,
                     workers,
@@ -282,8 +287,14 @@ impl Property for C13 {
     }
 
     fn run(case: &Case, obs: &mut Obs) -> Outcome {
-        let data = case.data.expand();
-        let preset = case.preset.as_ref().map(|p| p.expand()).filter(|p| !p.is_empty());
+        let mut data = case.data.expand();
+        let mut preset = case.preset.as_ref().map(|p| p.expand()).filter(|p| !p.is_empty());
+        if let (Some(seed), Some(p)) = (case.weave, preset.as_ref()) {
+            let (d2, i2) = weave_preset(p, &data, seed);
+            obs.class_if(d2.len() > p.len(), "preset_related");
+            preset = Some(d2);
+            data = i2;
+        }
         let is_mt = matches!(case.kind, Kind::Lzma2Mt { .. } | Kind::LzipMt { .. });
         obs.class_if(is_mt, "mt");
         obs.class_if(matches!(case.kind, Kind::Lzma { .. }), "lzma1");
